@@ -19,7 +19,7 @@ func init() {
 	register(&Check{
 		ID: "C14", Level: "exploration", Configs: []string{"clean", "foreign"},
 		Run:         runC14,
-		QuickRuns:   250_000,
+		QuickRuns:   1_000_000,
 		ThoroughSec: 600,
 		Rule: "config clean: a real H265Payloader (SkipAggregation, AddDONL drawn; receiver WithDONL to match) streams 1-10 calls of 1-6 NAL units (F=0, type 0-47, layer 0-63, TID 1-7, " +
 			"sizes around mtu-3..mtu+2 and multiples) at an MTU >= 4 (>= 6 with DONL) biased small, reassembled per RFC 7798; config foreign: an independent writer of single / AP (2-5 units) / " +
